@@ -15,7 +15,7 @@ LEVEL = "exploration"
 RULE = ("(a) Hypothesis rule-based state machine over one long-lived interpreter: up to 50 steps drawn from assemble(valid program), "
         "assemble(program with non-critical errors), assemble(program ending in a critical error), assemble(whose report handler "
         "raises on its k-th call - an assembly that crashes half way), run the CLI entry point; programs reuse the probe set's file "
-        "names and include paths on purpose. After every step a probe set of 14 programs (lazy evaluation, link-base solving, repeat, headers shared unchanged with history programs and full of once-per-token diagnostics, "
+        "names and include paths on purpose. After every step a probe set of 18 programs (forward definition chains of four lengths, lazy evaluation, link-base solving, repeat, headers shared unchanged with history programs and full of once-per-token diagnostics, "
         "include with .once, .end, errors with positions, warnings, unencodable literal, cross-file exports, CLI run with files) is "
         "re-assembled and every result (outcome class, base, bytes, output directives, diagnostics by severity, identifier, file, start, "
         "end; for the CLI probe exit status, stdout and files written) must equal the result a fresh process gave at the start of the "
@@ -54,6 +54,11 @@ PROBES = [
     ("unencodable", {"p.mac": "\tmov #'€, r0\n\t.ascii /ok/\n"}, ["p.mac"]),
     ("exports", {"p.mac": "x == 1\n\t.word y\n", "q.mac": "\t.byte x\n\t.even\nx = 5\ny::\tnop\n"}, ["p.mac", "q.mac"]),
     ("blkb-negative", {"p.mac": "\tnop\n\t.blkb 0 - 1\n\tnop\n"}, ["p.mac"]),
+] + [
+    # forward chains of several lengths: every link creates short-lived intermediate objects (behaviour that depends on object
+    # identity or allocation order shows up as an occasional deviation on some length)
+    (f"chain-{n}", {"p.mac": "\t.word s0\n" + "".join(f"s{i} = s{i + 1} + 1\n" for i in range(n)) + f"s{n} = end + 2\n\tnop\nend:\n"}, ["p.mac"]) for n in (7, 10, 13, 16)
+] + [
     ("shared-header", {"p.mac": "\t.include \"lib/hdr.mac\"\n\t.word lines, 19\n\t.ascii <400>\n1:\tbr 1 + 2\n\tmov #'€, r0\n", "lib/hdr.mac": HDR}, ["p.mac"]),
     ("shared-header-warnings", {"p.mac": "\t.include \"lib/hdr2.mac\"\n3:\tbr 3 + 2\n\t.word 'a'\n", "lib/hdr2.mac": "4:\tbr 4 + 2\n\t.word 'b', \"cd\"\n\tclr @r0\n"}, ["p.mac"]),
 ]
@@ -71,6 +76,16 @@ def write_tree(tree):
         with open(full, "w", encoding="utf-8", newline="") as f:
             f.write(content)
     return root
+
+
+def clean_outputs():
+    """a history starts in a directory without output files (what earlier *histories* wrote is not part of this one)"""
+    root = workdir()
+    for rel in ("p.bin", "p.lst", "out/r.raw", "hist.bin", "hist2.bin", "p.raw", "p"):
+        try:
+            os.unlink(os.path.join(root, rel))
+        except OSError:
+            pass
 
 
 def result_of(out, root):
@@ -91,11 +106,7 @@ def run_probe(probe):
 def run_cli_probe():
     name, tree, argv = CLI_PROBE
     root = write_tree(tree)
-    for rel in ("p.bin", "p.lst", "out/r.raw"):
-        try:
-            os.unlink(os.path.join(root, rel))
-        except OSError:
-            pass
+    # whatever earlier assemblies left at these paths stays there: the probe's own output must replace it completely
 
     class S:
         path = root
@@ -164,6 +175,7 @@ VALID = [
     {"p.mac": "\t.link 3000\n\t.repeat 3 { .word . }\nq:\tmov #q, r0\n"},
     {"p.mac": "x = 5\n\t.byte x\n\t.even\nlab::\tnop\n", "q.mac": "\t.word lab\n"},
     {"p.mac": "\tmov #'A, r0\n\t.ascii /text/\n\t.even\n\tmake_bin\n"},
+    {"p.mac": "\t.blkw 100\nlong1 = 1\nlong2 = 2\nlong3 = 3\nlong4 = 4\nlong5 = 5\nlong6:\tnop\n\tmake_raw \"out/r.raw\"\n", "out/": None},
     {"p.mac": "\tnop\n\t.include \"lib/hdr2.mac\"\n", "lib/hdr2.mac": "4:\tbr 4 + 2\n\t.word 'b', \"cd\"\n\tclr @r0\n"},
 ]
 INVALID = [
@@ -208,7 +220,7 @@ def do_step(step):
 
             def snapshot(self):
                 return {}
-        driver.run_cli(S(), mains + ["-o", "hist.bin"], cwd=root)
+        driver.run_cli(S(), mains + (["-o", "hist.bin"] if idx % 2 else ["-o", "p.bin", "--lst"]), cwd=root)   # half of them at the probe's own output paths
         # plus the same through main_cli inside this interpreter
         p = driver.pd()
         old_argv, old_cwd = sys.argv, os.getcwd()
@@ -262,6 +274,7 @@ def make_machine(baseline):
         def __init__(self):
             super().__init__()
             self.history = []
+            clean_outputs()
             driver.reset_state()      # each machine starts from a clean interpreter state (pdpy11 itself stays loaded)
             p = driver.pd()
             # class-level state a broken tree may have introduced cannot be reset generically: a fresh process per shard bounds it
@@ -365,13 +378,19 @@ def run_shard(spec, ctx):
                 settings=settings(max_examples=spec["machines"], stateful_step_count=spec["steps"], deadline=None, database=None, report_multiple_bugs=False,
                                   suppress_health_check=list(HealthCheck), print_blob=False))
             break
-        except AssertionError:
+        except (AssertionError, hypothesis.errors.Flaky) as ex:
             hist, d = _last["history"], _last["diff"]
             if hist is None:
                 raise
             kinds = {s[0] for s in hist}
             sig = f"history:{d[0]}:{d[1]}"
-            ctx.fail(sig, d[2] + f"\nhistory: {hist}", {"kind": "history", "steps": hist})
+            note = ""
+            if isinstance(ex, hypothesis.errors.Flaky):
+                # the deviation was observed, but not again when the same history was run once more: the result of an assembly
+                # is not a function of its inputs and the history at all
+                sig = f"history:not-reproducible:{d[0]}:{d[1]}"
+                note = "\n(the same history did not deviate when it was executed again: the deviation is sporadic)"
+            ctx.fail(sig, d[2] + note + f"\nhistory: {hist}", {"kind": "history", "steps": hist, "sporadic": bool(note)})
             ctx.case(repr(hist), True, ["failing-history"], sample={"history": hist})
             driver.reset_state()
             break
@@ -394,10 +413,16 @@ def replay(case):
     if case["kind"] == "history":
         baseline = fresh_each()
         driver.reset_state()
+        clean_outputs()
         for s in case["steps"]:
             do_step(s)
         d = diff(baseline, all_probes())
-        return [(f"history:{d[0]}:{d[1]}", d[2])] if d else []
+        for _ in range(30 if case.get("sporadic") and not d else 0):
+            # a sporadic deviation: repeat the probe set, any deviation counts
+            d = diff(baseline, all_probes())
+            if d:
+                break
+        return [(f"history:{'not-reproducible:' if case.get('sporadic') else ''}{d[0]}:{d[1]}", d[2])] if d else []
     if case["kind"] == "hashseed":
         a = fresh_baseline(case["a"])["probes"]
         b = fresh_baseline(case["b"])["probes"]
